@@ -108,6 +108,9 @@ def units(tier):
         us.append((uid, g))
     wrap("C03.calc_ss_fractions", unit_fractions)
     wrap("C03.ss_ideal", unit_ss_ideal)
+    from props import c03_build as BD
+    wrap("C03.build_pure_phases.saturation_equation", BD.unit_saturation_equation)
+    wrap("C03.build_reactants.transfer_enters_jacobian_and_element_delta_alike", BD.unit_transfer_pairing)
     return us
 
 
